@@ -30,6 +30,11 @@ the Session.  After every boundary the object side is judged without triggering 
 then a second pass reads every attribute the ordinary way and the relation must hold
 again (what gets loaded is the in-scope row).
 
+S8: a SAVEPOINT rollback expires only objects modified inside it (documented); what an
+unmodified object loaded / refreshed while the savepoint was open is excluded from the
+comparison after that rollback (instance load/refresh/expire events + the set of keys
+loaded when the frame was taken decide which pairs).
+
 Guards: the rig's S1-S7 (stale collections, expunged objects make no claim, ...); objects
 are only expunged when they predate the transaction; the sqlite3 driver runs with the
 documented "SQLAlchemy emits BEGIN" recipe so that SAVEPOINT is transactional.
@@ -81,9 +86,15 @@ class Model:
         self.frames = [self.frame(rig.read_committed)]
 
     def frame(self, reader):
+        import sqlalchemy as sa
+
         self.rig.sync()
         return {"dump": self.rig.dump(reader), "kinds": kinds_of(self.R, self.rig), "nobjs": len(self.rig.objs),
-                "created": set(self.rig.created)}
+                "created": set(self.rig.created),
+                # S8 bookkeeping: what was loaded when the frame was taken, and where the
+                # instance-event log stood
+                "loaded": {id(o): set(sa.inspect(o).dict) for o in self.rig.objs},
+                "reload_mark": len(self.rig.reload_log)}
 
 
 def diff(a, b):
@@ -115,11 +126,25 @@ def touch_all(rig):
     return n
 
 
-def judge_boundary(ctx, R, rig, model, op, ops, kd, pre_commit_dump, stats):
-    """Called right after a boundary op was applied."""
+def judge_boundary(ctx, R, rig, model, op, ops, kd, pre_commit_dump, stats, reload_mark=None):
+    """Called right after a boundary op was applied.  ``reload_mark`` = length of the rig's
+    instance-event log just before the op."""
     import sqlalchemy as sa
 
     kind = op[0]
+    exclude = set()
+    if kind == "spr":
+        # S8: attributes an object loaded while the savepoint was open (not loaded when the
+        # frame was taken, or the object was loaded / refreshed / expired since) keep their
+        # savepoint-era value unless the object was modified: documented, not judged
+        fr = model.frames[-1]
+        reloaded = set(rig.reload_log[fr["reload_mark"]:reload_mark])
+        for o in rig.objs:
+            was = fr["loaded"].get(id(o))
+            for k in list(sa.inspect(o).dict):
+                if was is None or id(o) in reloaded or k not in was:
+                    exclude.add((id(o), k))
+        ctx.count("s8_pairs_excluded", len(exclude))
     ctx.count("boundaries_judged")
 
     def vio(mech, summary, extra=None):
@@ -172,7 +197,8 @@ def judge_boundary(ctx, R, rig, model, op, ops, kd, pre_commit_dump, stats):
                     # the row may belong to another object by now (row switch / rowid reuse)
                     for o2 in rig.objs:
                         st2 = sa.inspect(o2)
-                        if o2 is not o and st2.key == st.key and not st2._deleted:
+                        if o2 is not o and not st2._deleted and (
+                                st2.key == st.key or st.key[1] in rig.idents_seen.get(id(o2), ())):
                             has_row = False
                 if k == "deleted" and not has_row:
                     # with expire_on_commit=False an object whose DELETE was committed is never
@@ -210,7 +236,7 @@ def judge_boundary(ctx, R, rig, model, op, ops, kd, pre_commit_dump, stats):
     reader = rig.read_committed if kind in ("commit", "rollback", "close") else rig.read_txn
     cnt = {}
     rowless = False
-    found = [f for f in R.relation(rig, R.snapshot(rig), reader, cnt) if f.mechanism != DROPPED]
+    found = [f for f in R.relation(rig, R.snapshot(rig), reader, cnt, exclude) if f.mechanism != DROPPED]
     if any(f.mechanism == "persistent-object-without-row" for f in found):
         # the row such an object should own is reported once, through the object
         found = [f for f in found if f.mechanism != "row-without-owner"]
@@ -232,7 +258,7 @@ def judge_boundary(ctx, R, rig, model, op, ops, kd, pre_commit_dump, stats):
     except sa.exc.SQLAlchemyError as e:
         vio("attribute-access-raised-after-boundary", f"{type(e).__name__}: {str(e)[:200]}")
         return False
-    for f in R.relation(rig, R.snapshot(rig), reader, cnt):
+    for f in R.relation(rig, R.snapshot(rig), reader, cnt, exclude):
         if f.mechanism != DROPPED:
             vio("second-pass-" + f.mechanism, f.summary, {"detail": f.detail, "pass": 2})
     for k2, v in cnt.items():
@@ -282,6 +308,7 @@ def run_history(ctx, R, zoo, tpl, knobs, rng, maxops, sample=False, fixed=None, 
             if op[0] in ("spr", "rollback"):
                 keys_before = {id(o): sa.inspect(o).key for o in rig.objs}
             pre_commit["dump"] = None
+            reload_mark = len(rig.reload_log)
             try:
                 ok = it.apply(op)
             except sa.exc.SQLAlchemyError as e:
@@ -310,7 +337,7 @@ def run_history(ctx, R, zoo, tpl, knobs, rng, maxops, sample=False, fixed=None, 
                         kb = keys_before.get(id(o))
                         if kb is not None and sa.inspect(o).key is not None and sa.inspect(o).key != kb:
                             ctx.count("pk_switch_rolled_back")
-                if not judge_boundary(ctx, R, rig, model, op, list(ops), kd, pre_commit["dump"], stats):
+                if not judge_boundary(ctx, R, rig, model, op, list(ops), kd, pre_commit["dump"], stats, reload_mark):
                     break
                 d = len(rig.sp)
                 for k in list(stats["deleted_since"]):
